@@ -1,18 +1,320 @@
 import Girc.Spec.Sim
 import Girc.Proofs.InvHandlers
+import Girc.Proofs.SimJoinSteps
 /-
   C04 proofs, part 3: messages that add members (JOIN, NAMES).
   In every statement `st`/`r` are the states AFTER the account-tag step.
 -/
 namespace Girc.Proofs.SimJoin
-open Girc Girc.Model Girc.Spec
+open Girc Girc.Model Girc.Spec Girc.Proofs.InvBase
+
+/-! ### JOIN: the reference side -/
+
+/-- The extended-join attributes, as `cmdStep` applies them. -/
+def refAttrs (r : Ref) (n : Bytes) (ext : List Bytes) : Ref :=
+  match ext with
+  | acct :: rest =>
+    let r := if acct ≠ sStar then r.updUser n (fun u => { u with account := acct }) else r
+    (match rest with | rn :: _ => r.updUser n (fun u => { u with realname := rn }) | [] => r)
+  | [] => r
+
+def refJoin (cfg : Cfg) (r : Ref) (src : Source) (chan : Bytes) (ext : List Bytes) : Ref :=
+  let r4 := refAttrs (((r.ensureChan chan).ensureUser src).addMember (fold chan) (fold src.name)) (fold src.name) ext
+  if r4.isMe cfg src.name then { r4 with myIdent := src.ident, myHost := src.host } else r4
+
+theorem cmdStep_JOIN (cfg : Cfg) (r : Ref) (e : Event) (hcmd : e.command = cJOIN)
+    {src : Source} {chan : Bytes} {ext : List Bytes} (hs : e.source = some src) (hp : e.params = chan :: ext) :
+    r.cmdStep cfg e = refJoin cfg r src chan ext := by
+  unfold Ref.cmdStep
+  dsimp only
+  rw [hcmd, if_neg (by decide), if_pos rfl, hs, hp]
+  rfl
+
+theorem conformant_JOIN (cfg : Cfg) (r : Ref) (e : Event) (hc : r.conformant cfg e = true)
+    (hcmd : e.command = cJOIN) :
+    ∃ src chan ext, e.source = some src ∧ e.params = chan :: ext ∧ isValidChannel chan = true := by
+  unfold Ref.conformant at hc
+  dsimp only at hc
+  rw [hcmd, if_pos rfl, Bool.and_eq_true, Bool.and_eq_true] at hc
+  obtain ⟨_, _, hm⟩ := hc
+  cases hs : e.source with
+  | none => rw [hs] at hm; simp at hm
+  | some src =>
+    cases hp : e.params with
+    | nil => rw [hs, hp] at hm; simp at hm
+    | cons chan ext =>
+      rw [hs, hp] at hm
+      simp only [Bool.and_eq_true] at hm
+      exact ⟨src, chan, ext, rfl, rfl, hm.1⟩
+
+theorem ne_nil_of_isValidChannel {chan : Bytes} (h : isValidChannel chan = true) : chan ≠ [] := by
+  intro e
+  subst e
+  cases h
+
+/-! ### JOIN: the implementation side -/
+
+theorem handleJOIN_eq (cfg : Cfg) (st : St) (e : Event) {src : Source} {chan : Bytes} {ext : List Bytes}
+    (hs : e.source = some src) (hp : e.params = chan :: ext) :
+    handleJOIN cfg st e = InvJoin.joinA cfg (chan :: ext) src chan (InvJoin.ensureChannel st chan) := by
+  unfold handleJOIN
+  rw [hs, hp]
+  rfl
+
+theorem joinA_eq (cfg : Cfg) (params : List Bytes) (src : Source) (chan : Bytes) (st : St)
+    {ch : Channel} {u : User} (hch : st.lookupChannel chan = some ch)
+    (hu : (InvJoin.ensureUser st src).lookupUser src.name = some u) :
+    InvJoin.joinA cfg params src chan st = InvJoin.joinC cfg params src chan ch u (InvJoin.ensureUser st src) := by
+  unfold InvJoin.joinA
+  rw [hch]
+  show InvJoin.joinB cfg params src chan ch (InvJoin.ensureUser st src) = _
+  unfold InvJoin.joinB
+  rw [hu]
+  rfl
+
+theorem stEq_setUser_self {st : St} {n : Bytes} {u : User} (hu : AMap.get? st.users n = some u) :
+    StEq st (setUser st n u) := by
+  refine ⟨rfl, rfl, rfl, rfl, rfl, rfl, fun _ => rfl, fun _ => rfl, fun x => ?_⟩
+  show _ = AMap.get? (AMap.set st.users n u) x
+  rw [get?_set]
+  by_cases e : x = n
+  · rw [if_pos e, e, hu]
+  · rw [if_neg e]
+
+theorem stEq_setUser_setUser (st : St) (n : Bytes) (v w : User) :
+    StEq (setUser (setUser st n v) n w) (setUser st n w) :=
+  ⟨rfl, rfl, rfl, rfl, rfl, rfl, fun _ => rfl, fun _ => rfl, fun x => InvJoin.get?_set_set _ _ _ _ x⟩
+
+/-- The extended-join attributes commute. -/
+theorem simW_joinAttrs {st : St} {r : Ref} (h : SimW st r) {n : Bytes} {u : User}
+    (hu : AMap.get? st.users n = some u) (chan : Bytes) (ext : List Bytes) :
+    SimW (setUser st n (InvJoin.joinAttrs (chan :: ext) u)) (refAttrs r n ext) := by
+  cases ext with
+  | nil => exact h.congr (stEq_setUser_self hu)
+  | cons acct rest =>
+    by_cases hacct : acct ≠ sStar
+    · have W1 : SimW (setUser st n { u with account := acct })
+          (r.updUser n (fun u => { u with account := acct })) :=
+        simW_updUser h _ hu rfl rfl rfl
+      cases rest with
+      | nil =>
+        have e1 : InvJoin.joinAttrs [chan, acct] u = { u with account := acct } := by
+          simp only [InvJoin.joinAttrs, if_pos hacct]
+        have e2 : refAttrs r n [acct] = r.updUser n (fun u => { u with account := acct }) := by
+          simp only [refAttrs, if_pos hacct]
+        rw [e1, e2]; exact W1
+      | cons rn rest' =>
+        have e1 : InvJoin.joinAttrs (chan :: acct :: rn :: rest') u = { u with account := acct, name := rn } := by
+          simp only [InvJoin.joinAttrs, if_pos hacct]
+        have e2 : refAttrs r n (acct :: rn :: rest') =
+            (r.updUser n (fun u => { u with account := acct })).updUser n (fun u => { u with realname := rn }) := by
+          simp only [refAttrs, if_pos hacct]
+        rw [e1, e2]
+        have W2 := simW_updUser W1 (u' := { u with account := acct, name := rn })
+          (fun u => { u with realname := rn }) (get?_set_self _ _ _) rfl rfl rfl
+        exact W2.congr (stEq_setUser_setUser _ _ _ _)
+    · cases rest with
+      | nil =>
+        have e1 : InvJoin.joinAttrs [chan, acct] u = u := by
+          simp only [InvJoin.joinAttrs, if_neg hacct]
+        have e2 : refAttrs r n [acct] = r := by
+          simp only [refAttrs, if_neg hacct]
+        rw [e1, e2]; exact h.congr (stEq_setUser_self hu)
+      | cons rn rest' =>
+        have e1 : InvJoin.joinAttrs (chan :: acct :: rn :: rest') u = { u with name := rn } := by
+          simp only [InvJoin.joinAttrs, if_neg hacct]
+        have e2 : refAttrs r n (acct :: rn :: rest') = r.updUser n (fun u => { u with realname := rn }) := by
+          simp only [refAttrs, if_neg hacct]
+        rw [e1, e2]
+        exact simW_updUser h _ hu rfl rfl rfl
+
+theorem isMe_iff {st : St} {r : Ref} (h : SimW st r) (cfg : Cfg) (x : Bytes) :
+    r.isMe cfg x = true ↔ fold x = getID cfg st := by
+  unfold Ref.isMe Ref.myNick getID getNick
+  rw [h.nick]
+  exact decide_eq_true_iff
+
+/-- The state both branches of `joinC` build on is related to the reference before the own-ident step. -/
+theorem simW_joinCore {st : St} {r : Ref} (h : SimW st r) (hL : InvL st.channels st.users)
+    (src : Source) (chan : Bytes) (ext : List Bytes) (hne : chan ≠ []) :
+    ∃ ch u, (InvJoin.ensureChannel st chan).lookupChannel chan = some ch ∧
+      (InvJoin.ensureUser (InvJoin.ensureChannel st chan) src).lookupUser src.name = some u ∧
+      SimW (setUser (setChannel (InvJoin.ensureUser (InvJoin.ensureChannel st chan) src) (fold chan) (ch.addUser u.nick))
+              (fold src.name) (InvJoin.joinAttrs (chan :: ext) (u.addChannel (ch.addUser u.nick).name)))
+        (refAttrs (((r.ensureChan chan).ensureUser src).addMember (fold chan) (fold src.name)) (fold src.name) ext) := by
+  have W1 := simW_ensureChan h chan hne
+  obtain ⟨hL1, ch, hch⟩ := InvJoin.ensureChannel_spec st chan hL
+  have W2 := simW_ensureUser W1 src
+  obtain ⟨hcs, u, hu, hun, _⟩ := InvJoin.ensureUser_spec (InvJoin.ensureChannel st chan) src hL1
+  have hk : fold chan = fold ch.name := hL1.chanKey _ ch hch
+  have hch2 : AMap.get? (InvJoin.ensureUser (InvJoin.ensureChannel st chan) src).channels (fold chan) = some ch := by
+    rw [hcs]; exact hch
+  have W3 := simW_addMember W2 hch2 hu (a := u.nick) (b := ch.name) hun.symm hk.symm
+  have W4 := simW_joinAttrs W3 (n := fold src.name) (u := u.addChannel ch.name) (get?_set_self _ _ _) chan ext
+  refine ⟨ch, u, hch, hu, ?_⟩
+  rw [InvJoin.addUser_name]
+  exact W4.congr ⟨rfl, rfl, rfl, rfl, rfl, rfl, fun _ => rfl, fun _ => rfl,
+    fun x => InvJoin.get?_set_set _ _ _ _ x⟩
 
 theorem sim_JOIN {st : St} {r : Ref} (cfg : Cfg) (e : Event) (h : Sim st r)
     (hc : r.conformant cfg e = true) (hcmd : e.command = cJOIN) :
-    ∃ st' outs, handleJOIN cfg st e = .ok (st', outs) ∧ Sim st' (r.cmdStep cfg e) := by sorry
+    ∃ st' outs, handleJOIN cfg st e = .ok (st', outs) ∧ Sim st' (r.cmdStep cfg e) := by
+  obtain ⟨src, chan, ext, hs, hp, hv⟩ := conformant_JOIN cfg r e hc hcmd
+  obtain ⟨st', outs, heq, hinv⟩ := InvJoin.handleJOIN_inv cfg st e h.inv
+  refine ⟨st', outs, heq, SimW.to_sim ?_ hinv⟩
+  obtain ⟨ch, u, hch, hu, W⟩ := simW_joinCore (SimW.of_sim h) h.inv.toInvL src chan ext (ne_nil_of_isValidChannel hv)
+  rw [cmdStep_JOIN cfg r e hcmd hs hp]
+  rw [handleJOIN_eq cfg st e hs hp, joinA_eq cfg _ src chan _ hch hu] at heq
+  unfold InvJoin.joinC at heq
+  dsimp only at heq
+  unfold refJoin
+  dsimp only
+  split at heq
+  · rename_i hme
+    rw [if_pos ((isMe_iff W cfg src.name).mpr hme)]
+    cases heq
+    exact simW_identHost W src.ident src.host
+  · rename_i hme
+    rw [if_neg (fun hm => hme ((isMe_iff W cfg src.name).mp hm))]
+    cases heq
+    exact W
+
+/-! ### NAMES: one entry -/
+
+/-- What one well-formed NAMES entry means, once its source is determined. -/
+def refNamesBody (r : Ref) (c : Bytes) (syms : Bytes) (s : Source) : Ref :=
+  ((r.ensureUser s).addMember c (fold s.name)).setPerms c (fold s.name) (permsFromPrefix syms)
+
+/-- Both sides parse an entry the same way. -/
+theorem namesEntry_cases2 (k : Bytes) (st : St) (r : Ref) (part : Bytes) :
+    (namesEntry k st part = .ok st ∧ r.namesEntry k part = r) ∨
+      ∃ modes src, namesEntry k st part = InvJoin.namesBody k st modes src ∧
+        r.namesEntry k part = refNamesBody r k modes src := by
+  unfold namesEntry Ref.namesEntry
+  rcases parseUserPrefix part with ⟨modes, nick, ok⟩
+  dsimp only
+  cases ok
+  · exact Or.inl ⟨rfl, rfl⟩
+  · by_cases hat : nick.contains AT = true
+    · refine Or.inr ⟨modes, parseSource nick, ?_, ?_⟩
+      · simp only [hat, if_true]; rfl
+      · simp only [hat, if_true]; rfl
+    · by_cases hv : isValidNick nick = true
+      · refine Or.inr ⟨modes, ⟨nick, [], []⟩, ?_, ?_⟩
+        · simp only [hat, hv]; rfl
+        · simp only [hat, hv]; rfl
+      · refine Or.inl ⟨?_, ?_⟩
+        · simp only [hat, hv]; rfl
+        · simp only [hat, hv]; rfl
+
+theorem namesBody_eq (k : Bytes) (st : St) (modes : Bytes) (src : Source) {ch : Channel} {u : User}
+    (hch : AMap.get? st.channels k = some ch)
+    (hcs : (InvJoin.ensureUser st src).channels = st.channels)
+    (hu : (InvJoin.ensureUser st src).lookupUser src.name = some u) :
+    InvJoin.namesBody k st modes src =
+      .ok (setChannel (setUser (InvJoin.ensureUser st src) (fold src.name)
+          { u.addChannel ch.name with
+            perms := AMap.set (u.addChannel ch.name).perms (fold (ch.addUser (fold src.name)).name)
+              (permsFromPrefix modes) }) k (ch.addUser (fold src.name))) := by
+  unfold InvJoin.namesBody
+  dsimp only
+  rw [InvJoin.createUser_eq_ensureUser, hu]
+  dsimp only
+  rw [hcs, hch]
+  rfl
+
+/-- The loop invariant of NAMES: the relation, and the channel is still there. -/
+def NamesSim (k : Bytes) (st : St) (r : Ref) : Prop :=
+  Sim st r ∧ ∃ ch, AMap.get? st.channels k = some ch
+
+theorem namesBody_sim (k : Bytes) (st : St) (r : Ref) (modes : Bytes) (src : Source) (h : NamesSim k st r) :
+    ∃ st', InvJoin.namesBody k st modes src = .ok st' ∧ NamesSim k st' (refNamesBody r k modes src) := by
+  obtain ⟨hsim, ch, hch⟩ := h
+  obtain ⟨st', heq, hinv', ch', hch'⟩ := InvJoin.namesBody_inv k st modes src ⟨hsim.inv, ch, hch⟩
+  refine ⟨st', heq, SimW.to_sim ?_ hinv', ch', hch'⟩
+  have hL := hsim.inv.toInvL
+  obtain ⟨hcs, u, hu, _, _⟩ := InvJoin.ensureUser_spec st src hL
+  have hk : k = fold ch.name := hL.chanKey _ ch hch
+  rw [namesBody_eq k st modes src hch hcs hu] at heq
+  cases heq
+  have W2 := simW_ensureUser (SimW.of_sim hsim) src
+  have hch2 : AMap.get? (InvJoin.ensureUser st src).channels k = some ch := by rw [hcs]; exact hch
+  have W3 := simW_addMember W2 hch2 hu (a := fold src.name) (b := ch.name) (fold_idem _) hk.symm
+  have W5 := simW_setPerms W3 (n := fold src.name) (u := u.addChannel ch.name) k (permsFromPrefix modes)
+    (get?_set_self _ _ _)
+  rw [InvJoin.addUser_name, ← hk]
+  unfold refNamesBody
+  exact W5.congr ⟨rfl, rfl, rfl, rfl, rfl, rfl, fun _ => rfl, fun _ => rfl,
+    fun x => InvJoin.get?_set_set _ _ _ _ x⟩
+
+theorem namesEntry_sim (k : Bytes) (st : St) (r : Ref) (part : Bytes) (h : NamesSim k st r) :
+    ∃ st', namesEntry k st part = .ok st' ∧ NamesSim k st' (r.namesEntry k part) := by
+  rcases namesEntry_cases2 k st r part with ⟨he, hr⟩ | ⟨modes, src, he, hr⟩
+  · rw [he, hr]; exact ⟨st, rfl, h⟩
+  · rw [he, hr]; exact namesBody_sim k st r modes src h
+
+theorem names_foldl_sim (k : Bytes) (parts : List Bytes) (st : St) (r : Ref) (h : NamesSim k st r) :
+    ∃ st', parts.foldlM (namesEntry k) st = .ok st' ∧
+      NamesSim k st' (parts.foldl (fun r p => r.namesEntry k p) r) := by
+  induction parts generalizing st r with
+  | nil => exact ⟨st, rfl, h⟩
+  | cons p ps ih =>
+    obtain ⟨st1, he, h1⟩ := namesEntry_sim k st r p h
+    rw [List.foldlM_cons, he, List.foldl_cons]
+    exact ih st1 _ h1
+
+/-! ### NAMES: the message -/
+
+theorem conformant_NAMES (cfg : Cfg) (r : Ref) (e : Event) (hc : r.conformant cfg e = true)
+    (hcmd : e.command = c353) :
+    ∃ a b chan d rest, e.params = a :: b :: chan :: d :: rest ∧ AMap.contains r.chans (fold chan) = true := by
+  unfold Ref.conformant at hc
+  dsimp only at hc
+  rw [hcmd, if_neg (by decide), if_neg (by decide), if_neg (by decide), if_neg (by decide),
+    if_neg (by decide), if_pos rfl, Bool.and_eq_true] at hc
+  obtain ⟨_, hm⟩ := hc
+  rcases hp : e.params with _ | ⟨a, _ | ⟨b, _ | ⟨chan, _ | ⟨d, rest⟩⟩⟩⟩
+  all_goals rw [hp] at hm
+  · cases hm
+  · cases hm
+  · cases hm
+  · cases hm
+  · simp only [Bool.and_eq_true] at hm
+    exact ⟨a, b, chan, d, rest, rfl, hm.1⟩
+
+theorem cmdStep_NAMES (cfg : Cfg) (r : Ref) (e : Event) (hcmd : e.command = c353)
+    {a b chan d : Bytes} {rest : List Bytes} (hp : e.params = a :: b :: chan :: d :: rest) :
+    r.cmdStep cfg e =
+      if AMap.contains r.chans (fold chan) then
+        (splitOnByte SP e.last).foldl (fun r p => r.namesEntry (fold chan) p) r
+      else r := by
+  unfold Ref.cmdStep Event.last
+  dsimp only
+  generalize e.params.getLastD [] = last
+  rw [hcmd, if_neg (by decide), if_neg (by decide), if_neg (by decide), if_neg (by decide),
+    if_neg (by decide), if_neg (by decide), if_pos rfl, hp]
+
+theorem handleNAMES_eq (st : St) (e : Event) {a b chan d : Bytes} {rest : List Bytes}
+    (hp : e.params = a :: b :: chan :: d :: rest) {ch : Channel} (hch : st.lookupChannel chan = some ch) :
+    handleNAMES st e = (splitOnByte SP e.last).foldlM (namesEntry (fold chan)) st := by
+  unfold handleNAMES
+  rw [hp]
+  split
+  · rename_i hlen
+    simp only [List.length_cons] at hlen
+    omega
+  · show (match st.lookupChannel chan with
+      | none => Except.ok st
+      | some _ => List.foldlM (namesEntry (fold chan)) st (splitOnByte SP e.last)) = _
+    rw [hch]
 
 theorem sim_NAMES {st : St} {r : Ref} (cfg : Cfg) (e : Event) (h : Sim st r)
     (hc : r.conformant cfg e = true) (hcmd : e.command = c353) :
-    ∃ st', handleNAMES st e = .ok st' ∧ Sim st' (r.cmdStep cfg e) := by sorry
+    ∃ st', handleNAMES st e = .ok st' ∧ Sim st' (r.cmdStep cfg e) := by
+  obtain ⟨a, b, chan, d, rest, hp, hk⟩ := conformant_NAMES cfg r e hc hcmd
+  obtain ⟨ch, hch⟩ := get?_of_known h.chans hk
+  rw [cmdStep_NAMES cfg r e hcmd hp, if_pos hk, handleNAMES_eq st e hp hch]
+  obtain ⟨st', heq, hs, _⟩ := names_foldl_sim (fold chan) (splitOnByte SP e.last) st r ⟨h, ch, hch⟩
+  exact ⟨st', heq, hs⟩
 
 end Girc.Proofs.SimJoin
